@@ -762,6 +762,13 @@ func c14MySQL(t *testing.T, plan *kernel.Plan, keepLog bool) *kernel.Result {
 			w.Res.Cut = false
 			w.Violate("C14", "session-terminates", "mysql", fmt.Sprintf("session still exchanging bytes after %d deliveries (%d bytes on all streams)", run.Steps, total))
 		}
+		if rng.Intn(3) == 0 {
+			var texts []string
+			for _, st := range script {
+				texts = append(texts, st.SQL)
+			}
+			c14Decoders(w, rng, true, schemaYAML(cols), "version: 0.85.0\nhandlers:\n  - handler: deny\n    tables:\n      - t9\n  - handler: allowall\n", texts)
+		}
 		w.Probe("mysql-session")
 		w.State(fmt.Sprintf("mysql faults=%d", len(plan.Faults)))
 		w.Res.SimNanos = int64(time.Since(start))
